@@ -419,7 +419,8 @@ def cmd_baseline(props, tier):
             U.UNITS[u.uid] = u
         U.KNOWN[:] = list(load_known().get('findings', []))
         cnts = {}
-        for r in U.run_units([u.uid for u in units]):
+        results, _ = cached_run(units, tier, None)
+        for r in results:
             n = sum(ob.get('count', 1) for ob in r['obligations'] if prop in (ob.get('props') or [prop]) and ob['status'] == 'proved')
             if r['error'] is None and r['oos'] is None and n > 0 and all(
                     ob['status'] == 'proved' for ob in r['obligations'] if prop in (ob.get('props') or [prop])):
